@@ -1,4 +1,4 @@
-from stages import beaconnet, grouptransition
+from stages import beaconnet, grouptransition, dkgexec
 
 
 def run(ctx):
@@ -21,6 +21,9 @@ def run(ctx):
         ctx.notes.append("MC_BeaconReshare_restart (F41 on the design): %s" % (r3.violated or r3.error or "holds"))
     # the rule that decides whether a reshared group may be adopted at all
     grouptransition.run(ctx)
+    # real resharings (dkg.Process networks, DKGExec.tla): every completed resharing keeps the distributed public key,
+    # genesis time and seed, period and scheme of the group it reshares
+    dkgexec.run(ctx, {"IdentityKept"})
     schemes = beaconnet.schemes_for(ctx, 1)
     for sch in schemes:
         beaconnet.run(ctx, "C07", scheme=sch)
